@@ -3,7 +3,11 @@ from vlib.core import core_check
 
 OPTS = [dict(), dict(p_alias=0.7), dict(p_nonexcl=0.5, max_t=4), dict(p_nonexcl=0.6, p_orx=1.0, max_t=3, max_m=3), dict(sched='rr', nested=False, rdep_rel=False),
         # methods that pass (a function of) their own argument on to their callees
-        dict(p_fwdarg=0.9, max_m=4, max_t=3, p_validate=0.3, p_alias=0.3, p_nonexcl=0.1, p_struct=0.3, _weight=2)]
+        dict(p_fwdarg=0.9, max_m=4, max_t=3, p_validate=0.3, p_alias=0.3, p_nonexcl=0.1, p_struct=0.3, _weight=2),
+        # the same grammar built through the sugar API: @def_method (arg / named / **kwargs parameters, dict or struct
+        # results), Methods vectors + @def_methods over adjacent bodies, Methods.provide and Methods.__call__ aliases
+        dict(p_sugar=1.0, p_alias=0.5, p_nonexcl=0.3, p_fwdarg=0.3, max_m=4, max_t=3),
+        dict(p_sugar=1.0, sugar_mode="vec", max_m=6, max_t=3, p_struct=0.2, p_body_in_struct=0.0, p_validate=0.05, p_nonexcl=0.1, p_nested=0.3, p_alias=0.4)]
 
 
 def arg_forms(rep):
@@ -40,7 +44,7 @@ def arg_forms(rep):
 
 
 def run(rep):
-    core_check(rep, "C05", [dict(o) for o in OPTS], 96, 2400, nontrivial_key="impl_designs_built")
+    core_check(rep, "C05", [dict(o) for o in OPTS], 128, 3200, nontrivial_key="impl_designs_built")
     arg_forms(rep)
     rep.coverage["evaluations"] = rep.coverage.get("evaluations", 0) + rep.coverage.get("argument_form_rows", 0)
     rep.coverage["rule"] = ("random designs from vlib/coregen.py's grammar built with the real API, every valuation of the "
